@@ -79,6 +79,8 @@ structure PodDesc where
   customSched : Int              -- annotation seconds-after-pod-scheduled (-1 = absent)
   customInit : Int
   res : List (Int × Int)         -- per vector index: (request, limit) of the translated resource name
+  specId : Option Nat := none    -- identity of the PodSpec when the pod comes as a raw shape (Model/C08Glue.lean);
+                                 -- none: the spec is determined by (cls, prioVariant, specNode, res)
 deriving Repr, DecidableEq
 
 structure PodInfo where
@@ -338,8 +340,13 @@ def assign (cfg : Cfg) (c : Cache) (node : Nat) (p : PodDesc) (now : Int) : Cach
 def unAssign (c : Cache) (node : Nat) (uid : Nat) : Cache :=
   if node == 0 then c else c.set node ((c.get node).deletePodByUid uid)
 
+/-- `reflect.DeepEqual(&pod.Spec, &oldPodInfo.pod.Spec)`.  The class of a raw-shape pod can come from labels
+(metadata), so for those only the spec identity and the node name count. -/
 def specEq (a b : PodDesc) : Bool :=
-  a.cls == b.cls && a.prioVariant == b.prioVariant && a.specNode == b.specNode && a.res == b.res
+  match a.specId, b.specId with
+  | none, none => a.cls == b.cls && a.prioVariant == b.prioVariant && a.specNode == b.specNode && a.res == b.res
+  | some x, some y => x == y && a.specNode == b.specNode
+  | _, _ => false
 
 def condEq (a b : PodDesc) : Bool := a.sched == b.sched && a.init == b.init
 
